@@ -315,7 +315,7 @@ def pddl_c38_keyword_names(problem, writer, domain_text, problem_text):
 
 
 def inexact_binary(value_text):
-    """True iff the text is a rational whose denominator is a large power of two: the footprint of a decimal literal that went
+    """True iff the text is a rational whose denominator has a large power-of-two factor: the footprint of a decimal literal that went
     through a binary float (0.4 -> 3602879701896397/9007199254740992)."""
     from fractions import Fraction
 
@@ -323,7 +323,7 @@ def inexact_binary(value_text):
         d = Fraction(value_text).denominator
     except (ValueError, ZeroDivisionError):
         return False
-    return d >= 2**30 and d & (d - 1) == 0
+    return d % 2**30 == 0  # (the value may have been divided / multiplied by other constants since)
 
 
 def pddl3_word_names(problem, writer):
@@ -339,11 +339,23 @@ def pddl3_word_names(problem, writer):
     return sorted(out)
 
 
+# root causes in the third-party package: `:precondition ()` -> Or()  (pddl/parser/domain.py, emptyor_pregd), and ONE function,
+# pddl/logic/base.py _simplify_monotone_op_operands (metaclass of And / Or / Plus / Times / Minus / Divide), which drops
+# operands already seen and flattens nested operands of the same class (the four other tags)
+TAG_ROOT_CAUSE = {
+    "empty-precondition": "empty-precondition",
+    "nested-div": "operand-dedup-flatten",
+    "nested-minus": "operand-dedup-flatten",
+    "dup-effects": "operand-dedup-flatten",
+    "dup-operands": "operand-dedup-flatten",
+}
+
+
 def primary_tag(tags):
-    """One tag per text (bounded set of mechanism strings): the first present in TAG_PRIORITY."""
+    """One root-cause name per text (bounded set of mechanism strings): that of the first tag present in TAG_PRIORITY."""
     for t in TAG_PRIORITY:
         if t in tags:
-            return t
+            return TAG_ROOT_CAUSE[t]
     return None
 
 
@@ -455,6 +467,19 @@ def anml_problem_tags(problem, names):
         for a in e.args:
             stack.append((a, inq or q))
     return sorted(tags)
+
+
+def anml_failure_tag(ex, tags):
+    """Root-cause tag of a reader failure: the text line the parser stopped at decides where it can (a fluent / constant
+    declaration line -> the type bounds; a line with a quantifier or `when (not (` -> the keyword commitment); otherwise the
+    first root cause of the problem's tags in ANML_TAG_PRIORITY."""
+    roots = {ANML_ROOT_CAUSE.get(t, t) for t in tags}
+    line = str(getattr(ex, "line", "") or "").strip()
+    if "type-bound-syntax" in roots and line.startswith(("fluent ", "constant ")):
+        return "type-bound-syntax"
+    if "keyword-as-fluent-ref" in roots and ("forall(" in line or "exists(" in line or "when (not (" in line):
+        return "keyword-as-fluent-ref"
+    return anml_primary_tag(tags)
 
 
 def anml_primary_tag(tags):
